@@ -112,6 +112,19 @@ c15_Requests == { RqN("add", "b", "b", FALSE), [RqN("add", "A", "a", FALSE) EXCE
                   RqN("rm", "A", "a", TRUE), [RqN("rm", "a", "a", FALSE) EXCEPT !.nostop = TRUE], RqN("rm", "aB", "ab", FALSE),
                   RqN("stop", "A", "a", TRUE), RqN("start", "AB", "ab", FALSE), RqN("status", "B", "b", FALSE) }
 
+\* ---- C12 / C15 / C01: reloadconfig (the daemon booted on <<a, b>>; each request carries the file as it is now)
+FW(nm, np, ver) == [n |-> nm, ln |-> nm, np |-> np, ver |-> ver, G |-> 1, W |-> 0, sing |-> FALSE, prio |-> 0, auto |-> TRUE,
+                    resp |-> TRUE, ssig |-> 15, sch |-> FALSE, hup |-> FALSE, retry |-> 2]
+RqF(file, waiting) == [Rq("reloadconfig", "", waiting) EXCEPT !.file = file]
+c12_Configs == { D(4, 0, <<W0("a", 1, 1, 0), W0("b", 2, 1, 0)>>), D(4, 1, <<W0("a", 2, 1, 0), W0("b", 1, 1, 0)>>) }
+c12_Requests == { RqF(<<FW("a", 1, 1), FW("b", 2, 1)>>, TRUE),                      \* (the first configuration, unchanged)
+                  RqF(<<FW("a", 2, 1), FW("b", 1, 1)>>, FALSE),                     \* numprocesses only
+                  RqF(<<FW("a", 1, 2), FW("b", 2, 1)>>, TRUE),                      \* another key of a
+                  RqF(<<FW("b", 2, 1)>>, FALSE),                                    \* a removed
+                  RqF(<<FW("a", 1, 1), FW("b", 2, 1), FW("c", 1, 1)>>, TRUE),       \* c added
+                  RqF(<<FW("a", 3, 2), FW("c", 1, 1)>>, FALSE),                     \* all at once
+                  Rq("status", "b", FALSE), Rq("list", "", FALSE), Rq("numwatchers", "", FALSE) }
+
 st_one == {256}
 st_exit == {0, 256, 65280}
 st_sig  == {15, 9, 11}
